@@ -321,3 +321,53 @@ Proof.
   exists e. split; [rewrite Heq; exact He|]. split; [rewrite <- Hstrip; apply Permutation_map; exact Hperm|].
   split; [exact Hsorted|]. split; [exact Hbp|exact Hrest].
 Qed.
+
+(* ====================================================================================
+   Extension round: the sort of xyc is STABLE -- points with equal times keep their given order
+   (Python's list.sort is stable; the model inserts a point after the points it does not precede). *)
+Definition same_time (k : Q) (p : pt) : bool := Qeq_bool (toQ (pt_time p)) k.
+
+Lemma le_time_trans : Relations_1.Transitive le_time.
+Proof. intros a b c H1 H2. unfold le_time in *. lra. Qed.
+
+Lemma filter_later_empty k l q : Sorted le_time (q :: l) -> k < toQ (pt_time q) -> filter (same_time k) (q :: l) = [].
+Proof.
+  intros Hs Hk. apply Sorted_StronglySorted in Hs; [|exact le_time_trans].
+  apply StronglySorted_inv in Hs. destruct Hs as [_ Hall].
+  assert (Hall' : Forall (fun x => k < toQ (pt_time x)) (q :: l)).
+  { constructor; [exact Hk|]. eapply Forall_impl; [|exact Hall]. intros x Hx. unfold le_time in Hx. lra. }
+  clear -Hall'. induction Hall' as [|x r Hx _ IH]; [reflexivity|]. simpl. rewrite IH.
+  unfold same_time. destruct (Qeq_bool (toQ (pt_time x)) k) eqn:E; [|reflexivity].
+  apply Qeq_bool_iff in E. lra.
+Qed.
+
+Lemma insert_pt_filter k p l : ok (pt_time p) -> Forall (fun q => ok (pt_time q)) l -> Sorted le_time l ->
+  filter (same_time k) (insert_pt p l)
+  = if same_time k p then filter (same_time k) l ++ [p] else filter (same_time k) l.
+Proof.
+  intros Hp Hok Hs. induction l as [|q r IH]; [simpl; destruct (same_time k p); reflexivity|].
+  inversion Hok as [|? ? Hq Hr]; subst. inversion Hs as [|? ? Hsr Hhd]; subst.
+  cbn [insert_pt]. rewrite nlt_ok by assumption.
+  destruct (Qlt_bool (toQ (pt_time p)) (toQ (pt_time q))) eqn:E.
+  - apply Qlt_bool_iff in E. cbn [filter]. destruct (same_time k p) eqn:Ek; [|reflexivity].
+    unfold same_time in Ek. apply Qeq_bool_iff in Ek.
+    change (if same_time k q then q :: filter (same_time k) r else filter (same_time k) r)
+      with (filter (same_time k) (q :: r)).
+    rewrite (filter_later_empty k r q Hs) by lra. reflexivity.
+  - cbn [filter]. rewrite (IH Hr Hsr). destruct (same_time k q), (same_time k p); reflexivity.
+Qed.
+
+Lemma sort_pts_stable k l : Forall (fun q => ok (pt_time q)) l ->
+  filter (same_time k) (sort_pts l) = filter (same_time k) l.
+Proof.
+  unfold sort_pts. intros Hl.
+  assert (H : forall acc, Forall (fun q => ok (pt_time q)) acc -> Sorted le_time acc ->
+     filter (same_time k) (fold_left (fun acc p => insert_pt p acc) l acc)
+     = filter (same_time k) acc ++ filter (same_time k) l).
+  { induction l as [|p r IH]; intros acc Hacc Hs; [simpl; rewrite app_nil_r; reflexivity|].
+    inversion Hl as [|? ? Hp Hr]; subst. simpl fold_left.
+    rewrite (IH Hr) by (try (apply insert_pt_ok; assumption); apply insert_pt_sorted; assumption).
+    rewrite (insert_pt_filter k p acc Hp Hacc Hs). cbn [filter].
+    destruct (same_time k p); [rewrite <- app_assoc; reflexivity|reflexivity]. }
+  rewrite (H [] (Forall_nil _) (Sorted_nil _)). reflexivity.
+Qed.
